@@ -19,6 +19,7 @@ type SolverCfg struct {
 	WorkDir  string
 	KeepSMT  bool
 	AllAgree bool // thorough: run every solver and require agreement
+	NoSolve  bool // generate only
 }
 
 func (o *Obligation) SMT(seed int) string {
@@ -93,6 +94,9 @@ func runSolver(ctx context.Context, sd solverDef, file string, timeout time.Dura
 
 // Solve discharges the obligations in parallel.
 func Solve(obls []*Obligation, cfg SolverCfg) {
+	if cfg.NoSolve {
+		return
+	}
 	if cfg.Workers <= 0 {
 		cfg.Workers = 8
 	}
